@@ -47,16 +47,21 @@ def cost_of(e):
 def gen_history(cat, prop, seed, h, tier):
     rng = util.rng_for(seed, prop, "history", h)
     entries = cat["entries"]
-    fams = sorted({e["family"] for e in entries})
+    fkey = "group" if prop == "C11" else "family"
+    fams = sorted({e[fkey] for e in entries})
     light_f = [f for f in fams if f != "viewshed"]
-    k = rng.randint(2, min(4, len(light_f))) if tier == "quick" else rng.randint(3, min(6, len(light_f)))
+    if prop == "C11":
+        k = rng.randint(2, 5) if tier == "quick" else rng.randint(3, 8)
+    else:
+        k = rng.randint(2, min(4, len(light_f))) if tier == "quick" else rng.randint(3, min(6, len(light_f)))
+    k = min(k, len(light_f))
     chosen = rng.sample(light_f, k)
     if "viewshed" in fams and rng.random() < (0.12 if tier == "quick" else 0.3):
         chosen.append("viewshed")
     by_f = collections.defaultdict(list)
     for e in entries:
-        if e["family"] in chosen:
-            by_f[e["family"]].append(e["id"])
+        if e[fkey] in chosen:
+            by_f[e[fkey]].append(e["id"])
     ent = {e["id"]: e for e in entries}
     if prop == "C10":
         # coverage of function x dtype x layout matters: a rotating slice of each family
@@ -100,7 +105,7 @@ def gen_history(cat, prop, seed, h, tier):
         if r < 0.40 or prev is None:
             push_call(rng.choice(ids_all))
         elif r < 0.65:
-            same = [i for i in by_f[ent[prev]["family"]] if i != prev]
+            same = [i for i in by_f[ent[prev][fkey]] if i != prev]
             push_call(rng.choice(same) if same else rng.choice(ids_all))
         elif r < 0.85:
             a = prev
